@@ -53,7 +53,8 @@ fn main() {
                 let mut it = args[8].split(':');
                 Some((it.next().unwrap().parse().unwrap(), it.next().unwrap().parse().unwrap()))
             };
-            let replay_only = args[9] == "replay-only";
+            let replay_only = args[9] == "replay-only" || args[9] == "confirm";
+            let strict = args[9] == "replay-only";
             let wa = WorkerArgs {
                 id: args[2].clone(),
                 tier: tier_of(&args[3]),
@@ -64,7 +65,7 @@ fn main() {
                 resume,
                 replay_files: args[10..].to_vec(),
                 replay_only,
-                strict: replay_only,
+                strict,
             };
             std::process::exit(run_worker(c, wa));
         }
